@@ -99,7 +99,9 @@ class TGen:
         if t == INT:
             if c < 0.45:
                 op = r.choice(["+", "-", "*", "+", "-"])
-                return canon_bin(op, self.expr(env, INT, depth - 1, pure), self.expr(env, INT, depth - 1 if op != "*" else 0, pure))
+                if op == "*":      # one factor is a small literal: magnitudes grow at most geometrically
+                    return canon_bin(op, self.expr(env, INT, depth - 1, pure), I(r.choice([0, 1, 2, 3, -1, -2])))
+                return canon_bin(op, self.expr(env, INT, depth - 1, pure), self.expr(env, INT, depth - 1, pure))
             if c < 0.55:
                 return canon_bin("/", self.expr(env, INT, depth - 1, pure), I(r.choice([1, 2, 3, -2, 7])))
             if c < 0.6:
@@ -128,7 +130,10 @@ class TGen:
             if c < 0.6:
                 op = r.choice(["+", "-", "*"])
                 lt, rt = r.choice([(FLOAT, FLOAT), (FLOAT, INT), (INT, FLOAT)])
-                return canon_bin(op, self.expr(env, lt, depth - 1, pure), self.expr(env, rt, depth - 1 if op != "*" else 0, pure))
+                if op == "*":
+                    lit = F(r.choice(["2.0", "0.5", "1.5", "0.25"])) if rt == FLOAT else I(r.choice([2, 3, -1]))
+                    return canon_bin(op, self.expr(env, lt, depth - 1, pure), lit)
+                return canon_bin(op, self.expr(env, lt, depth - 1, pure), self.expr(env, rt, depth - 1, pure))
             if c < 0.75:
                 lt = r.choice([FLOAT, FLOAT, INT])
                 return canon_bin("/", self.expr(env, lt, depth - 1, pure), F(r.choice(["2.0", "4.0", "0.5", "8.0"])))
@@ -143,11 +148,15 @@ class TGen:
         if not cands:
             return None
         name, params, _ = self.rng.choice(cands)
-        args = []
-        for p in params:
-            # an int argument may be passed for a float parameter (converted); never float -> int
-            at = p if (p == INT or self.rng.random() < 0.7) else INT
-            args.append(self.expr(env, at, min(depth, 1), pure=True))
+        # an int argument may be passed for a float parameter (converted); never float -> int
+        ats = [p if (p == INT or self.rng.random() < 0.7) else INT for p in params]
+
+        def cost(sig):
+            return sum(1 for a, q in zip(ats, sig) if a != q) if len(sig) == len(ats) else None
+        others = [cost(f[1]) for f in self.funcs if f[0] == name and f[1] != params]
+        if any(c is not None and c <= cost(params) for c in others):
+            ats = list(params)          # keep the resolution unambiguous: exact match
+        args = [self.expr(env, at, min(depth, 1), pure=True) for at in ats]
         return Call(name, args)
 
     # ---------------------------------------------------------------- statements
